@@ -101,14 +101,56 @@ def _drop_helpers(line_case, line):
     return line
 
 
+PARTIAL = {
+    "C14_walk_all_partial": "root restricted to a clean absolute path resolving through searchable real directories (relative, unclean and symlinked spellings of the root: C14_walk + correspondence only)",
+    "C14_walk_all_admin_partial": "same restriction on the root",
+}
+
+
+def _corpus_lines():
+    d = os.path.join(os.path.dirname(ML), "corpus", "C14")
+    out = []
+    if os.path.isdir(d):
+        for f in sorted(os.listdir(d)):
+            if f.endswith(".cases"):
+                out += [l for l in open(os.path.join(d, f)).read().splitlines() if l.strip()]
+    return out
+
+
 def check_C14(ctx):
     ctx.proofs()
-    # ---- A: implementation versus the model of the implementation
+    names = ctx.coverage.get("theorems", [])
+    ctx.coverage["theorem_status"] = {
+        "proved": [n for n in names if n not in PARTIAL and not n.endswith("_refuted")],
+        "partial": {n: PARTIAL[n] for n in names if n in PARTIAL},
+        "refuted_for_pinned_code": [n for n in names if n.endswith("_refuted")],
+    }
+    ctx.coverage["trusted_base"] += [
+        "Coq models Fs/Walk.v, Fs/Glob.v (hand translations of vfs.go WalkDir/walkDir/Glob/glob/cleanGlobPath/hasMeta, vfs_aferoutils.go and of Go 1.23.5 path/filepath WalkDir/walkDir/Glob/glob), POSIX flavour only; callback = a deterministic policy that does not modify the file system",
+        "the MemFS world model (MemFS.v/MemFile.v/World.v, tied by the fs stream) and the Linux specification model Posix.v (tied to the kernel by stream B of this check and by the fso stream) supply the primitives",
+        "oracle: Linux tmpfs + Go 1.23.5 filepath.WalkDir / filepath.Glob / os.ReadDir in a chroot, acting identity set with setfsuid/setfsgid/setgroups; operands of the oracle stream are non-empty and lexically clean (C01's universe) and the mode/owner of '/' is left as created",
+    ]
+    # ---- the fixed witness corpus first (the two repaired WalkDir defects, unreadable / dangling / looping entries)
     st = {"name": "walkglob", "harness": "walkglob", "driver": "walkglob"}
+    cl = _corpus_lines()
+    if cl:
+        mm = ctx.stream("walkglob-corpus", "walkglob", "walkglob", replay_lines=cl)
+        if mm is None:
+            return
+        ctx.coverage["streams"]["walkglob-corpus"] = {"lines": len(cl), "mismatches": len(mm)}
+        _report(ctx, st, mm, "WalkDir/Glob/ReadDir/helpers of avfs differ from the model of vfs.go on %d lines of the witness corpus (corpus/C14)")
+    # ---- A: implementation versus the model of the implementation
     mm = ctx.stream("walkglob", "walkglob", "walkglob")
     if mm is None:
         return
     _report(ctx, st, mm, "WalkDir/Glob/ReadDir/helpers of avfs differ from the model of vfs.go (proved equal to Go's filepath.WalkDir/Glob algorithms on the same primitives, theorems C14_walk/C14_glob) on %d case lines")
+    if ctx.tier == "thorough":
+        # the build with avfs' own path functions (Match, Join, Split, Clean of vfs_ostype_on.go)
+        stt = {"name": "walkglob-tagged", "harness": "walkglob", "driver": "walkglob", "tags": "avfs_setostype"}
+        mm = ctx.stream("walkglob-tagged", "walkglob", "walkglob", tags="avfs_setostype")
+        if mm is None:
+            return
+        _report(ctx, stt, mm, "WalkDir/Glob/ReadDir/helpers of avfs built with -tags avfs_setostype differ from the model of vfs.go on %d case lines")
     # ---- B / O: the oracle
     r = _oracle_streams(ctx, "walkglobo")
     if r is None:
